@@ -379,7 +379,7 @@ func init() {
 				n := 1 + r.IntN(2)
 				var out []StoreSpec
 				for i := 0; i < n; i++ {
-					out = append(out, StoreSpec{Name: fmt.Sprintf("st%d", i), Slot: pick(r, 2, 4, 8, 32), Unique: r.IntN(4) != 0,
+					out = append(out, StoreSpec{Name: fmt.Sprintf("st%d", i), Slot: pick(r, 2, 3, 4, 5, 7, 8, 32), Unique: r.IntN(4) != 0,
 						Balance: r.IntN(3) == 0, ValueMode: r.IntN(4), CacheMode: r.IntN(3)})
 				}
 				return out
